@@ -314,6 +314,26 @@ def trimLoop : List (Eni × Eni) → Int → Bool
       | none => false
       | some n => trimLoop rest (toDel - n)
 
+/-! ## which pods take part, and what each needs (pool.go `getPods`) -/
+
+structure RawPod where
+  name : String
+  hostNetwork : Bool
+  useENI : Bool
+  exited : Bool
+  /-- some init container / some container has a non-zero `aliyun/erdma` limit -/
+  erdmaInit : Bool
+  erdmaMain : Bool
+  deriving DecidableEq, Repr
+
+/-- the request built for one pod: it depends on that pod and the node's switches only -/
+def classify (en4 en6 erdmaOn : Bool) (p : RawPod) : Option (String × Bool × Bool × Bool) :=
+  if p.hostNetwork || p.useENI || p.exited then none
+  else some (p.name, en4, en6, erdmaOn && (p.erdmaInit || p.erdmaMain))
+
+def getPods (en4 en6 erdmaOn : Bool) (pods : List RawPod) : List (String × Bool × Bool × Bool) :=
+  pods.filterMap (classify en4 en6 erdmaOn)
+
 /-! ## full synchronisation: merging what the cloud reports into the record (eni.go `mergeIPMap`) -/
 
 /-- `mergeIPMap(remote, current)` for one interface and one family: addresses the cloud no longer reports are
